@@ -30,8 +30,9 @@ META = dict(
          'and at least 3 states, or a horizon case in which the search gave up',
     trusted_base=['IEEE doubles / scipy.linalg.expm', 'fixExp ~ exp (driver) for the infinite-horizon reference of the '
                   'horizon clause', 'PT1: Markov property of the piecewise time-homogeneous chain (restart clause)'],
-    assumptions=['relations are compared at 1e-9 relative (statement) plus an absolute floor of 1e-12 x scale^k (scale = '
-                 'largest time involved or the mean tree height), needed only where both sides are ~0; monotonicity with '
+    assumptions=['relations are compared at 1e-9 relative (statement) plus an absolute floor of 1e-12 x scale^k (scale = n x '
+                 'the largest time involved or the mean tree height, i.e. the size of the raw k-th moments the code works '
+                 'with; centred moments are differences of those), needed only where both sides are ~0; monotonicity with '
                  '1e-12 relative slack plus a rounding floor of 1e-15 x (n x last grid time)^k (a few ulp of the numbers '
                  'held in the Van Loan block: cross moments of SFS bins are ~1e-5 of that scale and flat after absorption, '
                  'where they wobble by ~5e-16 absolute); default horizon at 1e-7 relative',
@@ -120,6 +121,10 @@ def n_states(cfg):
     return sum(math.comb(j + D - 1, D - 1) for j in range(1, n + 1))
 
 
+def n_tot(cfg):
+    return sum(cfg['n'].values())
+
+
 def nontrivial(cfg, always=False):
     return n_states(cfg) >= 3 and (always or len(cfg['epochs']) >= 2)
 
@@ -200,7 +205,7 @@ def clause_redundant(ctx, pg, cfg, params):
     extra, times, Te = params['extra'], params['times'], params['Te']
     ref = snapshot(pg, make(pg, cfg, extra=[]), cfg, times, Te)             # sparse rendering, no redundant entry
     variants = [('redundant-entries', make(pg, cfg, extra=extra)), ('dense-rendering', make(pg, cfg))]
-    scale = max(float(ref['th.mean'][0]), max(times + [Te]), 1e-300)
+    scale = n_tot(cfg) * max(float(ref['th.mean'][0]), max(times + [Te]), 1e-300)
     for label, coal in variants:
         res = snapshot(pg, coal, cfg, times, Te)
         ctx.case(dict(cfg=cfg, clause='redundant', params=params, variant=label),
@@ -246,7 +251,7 @@ def gen_refine(cfg, rng):
 def clause_refine(ctx, pg, cfg, params):
     fine, idx = params['fine'], params['idx']
     coarse = [fine[i] for i in idx]
-    scale = max(fine + [1e-300])
+    scale = n_tot(cfg) * max(fine + [1e-300])
     shared = make(pg, cfg) if params.get('same_object') else None
     for name in params['curves']:
         a, k = curve(pg, shared or make(pg, cfg), name, coarse)
@@ -299,9 +304,9 @@ def clause_route(ctx, pg, cfg, params):
                      digest(gen.cfg_key(cfg), 'route', T, stat) if nontrivial(cfg) else None)
             ctx.count('clause:route')
             for (la, a), (lb, b) in itertools.combinations(vals, 2):
-                if differs(a, b, 1e-12 * max(T, 1e-300) ** k):
+                if differs(a, b, 1e-12 * (n_tot(cfg) * max(T, 1e-300)) ** k):
                     report(ctx, f'route:{stat}', cfg, 'route', dict(Ts=[T], stats=[stat]), end_time=T,
-                           route_a=la, value_a=a, route_b=lb, value_b=b, tolerance=dict(rel=REL, abs=1e-12 * T ** k))
+                           route_a=la, value_a=a, route_b=lb, value_b=b, tolerance=dict(rel=REL, abs=1e-12 * (n_tot(cfg) * T) ** k))
                     break
 
 
@@ -333,7 +338,7 @@ def clause_additive(ctx, pg, cfg, params):
             ctx.case(dict(cfg=cfg, clause='additive', window=[a, b], stat=stat),
                      digest(gen.cfg_key(cfg), 'additive', a, b, stat) if nontrivial(cfg) and 0 < a < b else None)
             ctx.count('clause:additive')
-            floor = 1e-12 * max(b, 1e-300)
+            floor = 1e-12 * n_tot(cfg) * max(b, 1e-300)
             if differs(whole, first + second, floor):
                 report(ctx, f'additive:{stat.split(":")[0]}', cfg, 'additive', dict(windows=[[a, b]], stats=[stat]),
                        a=a, b=b, moment_0_b=whole, moment_0_a=first, moment_a_b=second, tolerance=dict(rel=REL, abs=floor))
@@ -374,7 +379,7 @@ def _reward_from_json(r):
 def clause_monotone(ctx, pg, cfg, params):
     grid = params['grid']
     coal = make(pg, cfg)
-    n_tot = sum(cfg['n'].values())
+    ntot = n_tot(cfg)
     curves = []
     for rw in params['rewards']:
         rw = [_reward_from_json(r) for r in rw]
@@ -391,7 +396,7 @@ def clause_monotone(ctx, pg, cfg, params):
         k = len(label) if isinstance(label, list) else int(label.split('(')[1][0])
         # rounding floor: the Van Loan block holds numbers of the size of the k-th raw moment of the largest reward
         # (<= n lineages) over the grid, (n * t_last)^k; a few ulp of that is invisible to the code
-        floor = 1e-15 * (n_tot * max(grid + [1e-300])) ** k
+        floor = 1e-15 * (ntot * max(grid + [1e-300])) ** k
         d = v[..., 1:] - v[..., :-1]
         slack = 1e-12 * np.maximum(np.abs(v[..., 1:]), np.abs(v[..., :-1])) + floor
         bad = np.argwhere((d < -slack) | np.isnan(d))
